@@ -47,6 +47,10 @@ RootOf(nodes, x) == LET n == N(nodes, x) IN
 \* two attributes have "the same qualified name"
 SameAttrName(a, b) == a.ns = b.ns /\ a.local = b.local
 AttrsDistinct(attrs) == \A i, j \in DOMAIN attrs : SameAttrName(attrs[i], attrs[j]) => i = j
+\* C05 speaks of the qualified name (prefix:local).  For HTML parses the two notions coincide (only the adjusted
+\* foreign attributes carry a prefix); the XML tree builder can hand over x and z:x with z unbound
+SameQualifiedName(a, b) == a.prefix = b.prefix /\ a.local = b.local
+QNamesDistinct(attrs) == \A i, j \in DOMAIN attrs : SameQualifiedName(attrs[i], attrs[j]) => i = j
 
 IndexOfNode(ch, id) == CHOOSE i \in DOMAIN ch : ch[i].t = "n" /\ ch[i].id = id
 RemoveAt(s, i) == SubSeq(s, 1, i - 1) \o SubSeq(s, i + 1, Len(s))
